@@ -25,7 +25,7 @@ def sh(cmd, cwd=None, env=None, timeout=3600):
     e["CARGO_NET_OFFLINE"] = "true"
     if env:
         e.update(env)
-    p = subprocess.run(cmd, shell=True, cwd=cwd, env=e, stdout=subprocess.PIPE, stderr=subprocess.STDOUT, timeout=timeout)
+    p = subprocess.run(["bash", "-o", "pipefail", "-c", cmd], cwd=cwd, env=e, stdout=subprocess.PIPE, stderr=subprocess.STDOUT, timeout=timeout)
     return p.returncode, p.stdout.decode("utf-8", "replace")
 
 
